@@ -104,4 +104,18 @@ Section Checks.
     | 0 => eqb a b
     | S n' => eqb a b || existsb (fun e => eqb a (fst e) && reachb r n' (snd e) b) r
     end.
+
+  (* NON-reachability by certificate: a set of classes that contains x and is closed under the
+     relation contains everything reachable from x.  `behind r n x` computes a candidate (n rounds
+     of adding successors); `closed_setb` checks it - whatever `behind` computes, a `true`
+     answer of closed_setb is a certificate (closed_setb_sound). *)
+  Definition memb (x : C) (l : list C) : bool := existsb (eqb x) l.
+
+  Definition add_succs (r : list (C * C)) (acc : list C) : list C :=
+    fold_left (fun a e => if memb (fst e) a && negb (memb (snd e) a) then snd e :: a else a) r acc.
+
+  Definition behind (r : list (C * C)) (n : nat) (x : C) : list C := Nat.iter n (add_succs r) [x].
+
+  Definition closed_setb (r : list (C * C)) (S : list C) : bool :=
+    forallb (fun e => negb (memb (fst e) S) || memb (snd e) S) r.
 End Checks.
